@@ -65,8 +65,8 @@ def run(ctx):
 
     # ---- R2a: one behaviour per transition of the abstract state graph
     gen = dict(spec="GenSpec", log="LogAppend", rest="VIEW cvars\nACTION_CONSTRAINT EmitEdge")
-    write("gen.cfg", **dict(gen, sizes="1, 3, 5", cs="2, 3", maxsizes="4", depth=8 if q else 9,
-                            **({} if q else dict(sizes="0, 1, 3, 5", cs="0, 2, 3"))))
+    write("gen.cfg", **dict(gen, sizes="1, 3, 5" if q else "0, 1, 3, 5", cs="2, 3" if q else "0, 2, 3",
+                            maxsizes="4", depth=8 if q else 9))
     beh = ctx.path("edges.ndjson")
     g = ctx.tlc(sd, "MC_Quota", "gen.cfg", timeout=1800, behaviours_out=beh, count=False)
     if g.ok and g.behaviours == 0:
